@@ -227,12 +227,36 @@ def task_basemesh():
 
 
 def coarse_widths_expr():
-    """the value expression of `ch = [...]` in the current source of solver.restriction"""
+    """the expression handed to meshes.BaseMesh as cell widths in the current source of solver.restriction (first argument / `h=`), with
+    names that are assigned exactly once in the function replaced by what they are assigned -- no local name is assumed"""
     fn, _, _ = intake.func('solver.restriction')
-    for s in ast.walk(fn):
-        if isinstance(s, ast.Assign) and len(s.targets) == 1 and isinstance(s.targets[0], ast.Name) and s.targets[0].id == 'ch':
-            return s.value
-    raise cx.Unsupported('solver.restriction: no assignment to `ch` (coarse cell widths)')
+    calls = [c for c in ast.walk(fn) if isinstance(c, ast.Call) and ast.unparse(c.func).endswith('BaseMesh')]
+    if len(calls) != 1:
+        raise cx.Unsupported('solver.restriction: expected exactly one BaseMesh(...) call')
+    c = calls[0]
+    expr = c.args[0] if c.args else next((k.value for k in c.keywords if k.arg == 'h'), None)
+    if expr is None:
+        raise cx.Unsupported('solver.restriction: BaseMesh called without cell widths')
+    assigned = {}
+    for st in ast.walk(fn):
+        if isinstance(st, ast.Assign) and len(st.targets) == 1 and isinstance(st.targets[0], ast.Name):
+            assigned.setdefault(st.targets[0].id, []).append(st.value)
+    keep = ('rx', 'ry', 'rz', 'model', 'np')
+
+    class Sub(ast.NodeTransformer):
+        def __init__(self):
+            self.depth = 0
+
+        def visit_Name(self, n):
+            v = assigned.get(n.id)
+            if isinstance(n.ctx, ast.Load) and v is not None and len(v) == 1 and n.id not in keep and self.depth < 4:
+                self.depth += 1
+                r = self.visit(ast.parse(ast.unparse(v[0]), mode='eval').body)
+                self.depth -= 1
+                return r
+            return n
+    out = Sub().visit(ast.parse(ast.unparse(expr), mode='eval').body)
+    return ast.fix_missing_locations(out)
 
 
 def task_coarse_chain(r):
